@@ -106,3 +106,7 @@ TEXT["C07"]["technique"] += " + bounded-exhaustive enumeration of the real dlqWi
 TEXT["C07"]["level"] += (" Window arithmetic: for every window size and threshold 0..5 and every ack/nack sequence up to length 10 (v2: length 9 x every partition into batches) "
                          "the real dlqWindow of each engine is compared with a reference (last N outcomes, tolerated iff rejections among them <= T, frozen after the first refusal); the exported "
                          "DLQHandlerNode (v1) and DLQ (v2) are driven with the same sequences and must take identical decisions (incl. fatal vs plain refusal) and write exactly the tolerated rejections, in order, to the DLQ.")
+TEXT["C19"]["level"] += (" Gate matrix (part gates): digest ok/bad x fetch outcome (ok, artifact missing, truncated, trailing bytes, signature bundle missing) x verifier behaviour (accept, success without a signature, reject, error) "
+                         "x --allow-unsigned x all 64 combinations of operator policy / MCP / TTY / CI / env var / typed confirmation x dry-run, each through the real Install into a fresh directory: "
+                         "the artifact (and a manifest entry) may appear only if the bytes were fetched completely, match the declared digest, and a signature was verified or the operator's policy permits the requested unsigned install; "
+                         "the verifier is never consulted on bytes that failed the digest check.")
